@@ -264,13 +264,22 @@ Definition code_elem (orow ocol : list nat) (e : result (option (list nat * list
    a digest: two independent polynomial hashes modulo the Mersenne prime 2^61 - 1 over the row-major
    sequence of cells.  The harness computes the same digest from the implementation's matrix and
    asks for the full table (limit = 0 means no limit) when they differ. *)
-Definition hash_cells (B : Z) (l : list Z) : Z :=
-  fold_left (fun h c => ((h * B + c + 1) mod 2305843009213693951)%Z) l 0%Z.
+Definition M61 : Z := 2305843009213693951%Z.   (* 2^61 - 1 *)
+
+(* partial reduction modulo 2^61 - 1 (Z.modulo is far too slow under vm_compute to use per cell) *)
+Definition red61 (y : Z) : Z :=
+  let y1 := (Z.land y M61 + Z.shiftr y 61)%Z in (Z.land y1 M61 + Z.shiftr y1 61)%Z.
+
+(* h := h * B + c + 1  (mod 2^61 - 1)  with B = 2^31 + 1 resp. 2^37 + 2^11 + 1 *)
+Definition hash_cells1 (l : list Z) : Z :=
+  (fold_left (fun h c => red61 (Z.shiftl h 31 + h + c + 1)%Z) l 0%Z mod M61)%Z.
+Definition hash_cells2 (l : list Z) : Z :=
+  (fold_left (fun h c => red61 (Z.shiftl h 37 + Z.shiftl h 11 + h + c + 1)%Z) l 0%Z mod M61)%Z.
 
 (* [1] if the call is rejected, else 0 :: N :: result dims ++ #cells :: body, one cell per entry (x,y)
    that is not zero, in row-major order:  (x*D + y) * (R*C + 1) + code  with code = 1 + r*C + c, or
    code = 0 when the model cannot evaluate the entry.
-   body = the cells if limit = 0 or #cells <= limit, else [hash 1000003; hash 998244353] *)
+   body = the cells if limit = 0 or #cells <= limit, else [hash_cells1 cells; hash_cells2 cells] *)
 Definition expand_table_z (limit : nat) (dims orow ocol : list nat) (ts : tspec) : list Z :=
   match expand_plan dims orow ocol ts with
   | Error _ => [1%Z]
@@ -291,7 +300,7 @@ Definition expand_table_z (limit : nat) (dims orow ocol : list nat) (ts : tspec)
                   end) labels) labels in
       0%Z :: Z.of_nat (length rd) :: map Z.of_nat rd ++ Z.of_nat (length cells) ::
       (if (Nat.eqb limit 0 || (length cells <=? limit))%bool then cells
-       else [hash_cells 1000003 cells; hash_cells 998244353 cells])
+       else [hash_cells1 cells; hash_cells2 cells])
   end.
 
 (* same header, then the code of each queried entry *)
